@@ -3,6 +3,7 @@ import enum
 import ipaddress
 import os
 import re
+import threading
 import typing
 import uuid
 import zoneinfo
@@ -80,6 +81,19 @@ __all__ = ["PackerRegistry"]
 
 PackerRegistry = Registry()
 register = PackerRegistry.register
+
+# (holder id, method name) of nested dataclass methods being built by this
+# thread: mutually recursive classes reach each other again before the first
+# build has finished
+_in_progress = threading.local()
+
+
+def _methods_in_progress() -> set:
+    try:
+        return _in_progress.keys
+    except AttributeError:
+        _in_progress.keys = set()
+        return _in_progress.keys
 
 
 def _pack_with_annotated_serialization_strategy(
@@ -252,7 +266,7 @@ def pack_dataclass(spec: ValueSpec) -> Optional[Expression]:
             # a dialect-specific build goes to the per-dialect cache, so the
             # default method of the class is not the one being built now
             or spec.builder.dialect is not None
-        ):
+        ) and (id(method_loc), method_name) not in _methods_in_progress():
             builder = spec.builder.__class__(
                 spec.origin_type,
                 type_args,
@@ -264,7 +278,11 @@ def pack_dataclass(spec: ValueSpec) -> Optional[Expression]:
                     spec.attrs_registry if not spec.builder.is_nailed else None
                 ),
             )
-            builder.add_pack_method()
+            _methods_in_progress().add((id(method_loc), method_name))
+            try:
+                builder.add_pack_method()
+            finally:
+                _methods_in_progress().discard((id(method_loc), method_name))
         flags = spec.builder.get_pack_method_flags(spec.type)
         if spec.builder.is_nailed:
             return f"{spec.expression}.{method_name}({flags})"
